@@ -366,6 +366,35 @@ def gen(ctx):
     for i, (typ, spec) in enumerate(MALFORMED):
         if i % ctx.nshards == ctx.shard:
             yield {'type': 'malformed', 'of': typ, 'spec': spec}
+    # generated malformed class: numeric endpoints with an element that is not an integer (a
+    # fraction - e.g. seconds given as 59.5 instead of microseconds -, a digit string, None):
+    # an error, not a silently truncated number
+    for k in range(40 if quick else 4000):
+        typ = rng.choice(['time', 'date', 'datetime'])
+
+        def endpoint(typ=typ):
+            if typ == 'time':
+                return [rng.randrange(24), rng.randrange(60), rng.randrange(60),
+                        rng.randrange(10 ** 6)][:rng.choice([1, 2, 3, 4])]
+            if typ == 'date':
+                return [rng.randrange(1, 13), rng.randrange(1, 29)]
+            return [rng.randrange(1990, 2090), rng.randrange(1, 13), rng.randrange(1, 29),
+                    rng.randrange(24), rng.randrange(60), rng.randrange(60),
+                    rng.randrange(10 ** 6)][:rng.choice([5, 6, 7])]
+        ends = sorted([endpoint(), endpoint()]) if typ == 'datetime' else [endpoint(), endpoint()]
+        victim = rng.choice(ends)
+        i = rng.randrange(len(victim))
+        r = rng.random()
+        if r < 0.7:
+            victim[i] = victim[i] + rng.choice([0.5, 0.25, 0.999, 0.001])
+            if i == 0 and typ == 'datetime' and ends[0] > ends[1]:
+                continue
+        elif r < 0.85:
+            victim[i] = str(victim[i])
+        else:
+            victim[i] = None
+        if k % ctx.nshards == ctx.shard:
+            yield {'type': 'malformed', 'of': typ, 'spec': [ends]}
     # generated malformed class: a month name glued between two digit groups (no white space
     # on either side) must not be read as "month + fused digits"
     for k in range(12 if quick else 300):
@@ -384,6 +413,21 @@ def gen(ctx):
         else:
             yield {'type': 'malformed', 'of': 'datetime',
                    'spec': f"2030 {glued} 08:00:00 / 2031-03-01T08:00"}
+    # generated malformed class: a valid traditional date+time endpoint (every date notation)
+    # followed by something that is not part of it - must be rejected, not silently dropped
+    for k in range(24 if quick else 600):
+        y, mo, d = rng.randrange(2000, 2040), rng.randrange(1, 13), rng.randrange(1, 29)
+        mon = rng.choice(MONTHS[1:])
+        mon = MONTHS[mo][:rng.choice([3, 9])]
+        date = rng.choice([f"{y}-{mo:02d}-{d:02d}", f"{y}-{mon}-{d}", f"{y} {mon} {d}",
+                           f"{d}. {mon} {y}", f"{mon} {d} {y}"])
+        junk = rng.choice([' pm', ' UTC', ' Z', ' +01:00', ' 10:15', f" {y + 1}", ' x', ' am'])
+        hm = f"{rng.randrange(0, 24)}:{rng.randrange(0, 60):02d}"
+        bad = f"{date} {hm}{junk}"
+        good = f"{y + 1}-01-01 0:00"
+        yield {'type': 'malformed', 'of': 'datetime',
+               'spec': rng.choice([f"{bad} / {good}", f"{good[:4]}-01-01 0:00 / {bad}".replace(
+                   good[:4], str(y - 1), 1)])}
     for k in range(n):
         typ = rng.choice(['time', 'time', 'date', 'datetime', 'weekdays'])
         if typ == 'weekdays':
